@@ -11,6 +11,7 @@ import (
 	"time"
 
 	libshare "github.com/celestiaorg/go-square/v4/share"
+	"github.com/celestiaorg/rsmt2d"
 
 	"github.com/celestiaorg/celestia-node/share"
 	"github.com/celestiaorg/celestia-node/share/eds"
@@ -19,6 +20,51 @@ import (
 )
 
 func verifNeverC05(d time.Duration) <-chan time.Time { return make(chan time.Time) }
+
+// The plain in-memory accessor (no wrappers): every axis half, the share list,
+// the streamed square and the share inside a sample at any coordinate are the
+// square it was built from.
+//
+//verif:opts nopanic nodeadlock noreplay preempt=0 cover=read
+func VerifH_C05_InMemoryAccessorReadsTheSquare() {
+	verifSetup()
+	const k = 2
+	ctx := context.Background()
+	ns := libshare.MustNewV0Namespace([]byte("c05-ns"))
+	cells, sq := shwap.VerifModelSquare(k, 1+nd.Choice(k*k, "filled"), ns)
+	acc := &eds.Rsmt2D{ExtendedDataSquare: sq}
+	size, err := acc.Size(ctx)
+	nd.Assert(err == nil && size == 2*k, "in-memory-accessor-serves-the-square")
+	for _, axis := range []rsmt2d.Axis{rsmt2d.Row, rsmt2d.Col} {
+		for idx := 0; idx < 2*k; idx++ {
+			half, err := acc.AxisHalf(ctx, axis, idx)
+			nd.Assert(err == nil && len(half.Shares) == k && !half.IsParity, "in-memory-accessor-serves-the-square")
+			want := make([]libshare.Share, k)
+			for i := 0; i < k; i++ {
+				if axis == rsmt2d.Row {
+					want[i] = cells[idx][i]
+				} else {
+					want[i] = cells[i][idx]
+				}
+			}
+			nd.Assert(verifSame(half.Shares, want), "in-memory-accessor-serves-the-square")
+		}
+	}
+	var q1 []libshare.Share
+	for r := 0; r < k; r++ {
+		q1 = append(q1, cells[r][:k]...)
+	}
+	shs, err := acc.Shares(ctx)
+	nd.Assert(err == nil && verifSame(shs, q1), "in-memory-accessor-serves-the-square")
+	rd, err := acc.Reader()
+	nd.Assert(err == nil, "in-memory-accessor-serves-the-square")
+	streamed, err := eds.ReadShares(rd, libshare.ShareSize, k)
+	nd.Assert(err == nil && verifSame(streamed, q1), "in-memory-accessor-serves-the-square")
+	row, col := nd.Choice(2*k, "row"), nd.Choice(2*k, "col")
+	s, err := acc.Sample(ctx, shwap.SampleCoords{Row: row, Col: col})
+	nd.Assert(err == nil && nd.EqBytes(s.Share.ToBytes(), cells[row][col].ToBytes()), "in-memory-accessor-serves-the-square")
+	nd.Cover("read")
+}
 
 // Every representation of a stored block reads back as the block that was
 // put, in whatever order the read paths are used.
